@@ -110,6 +110,26 @@ CHECKS["C15"] = dict(
     technique="Coq proof over a statement list regenerated from the source (fail-closed ast extraction) + fault-injecting request grammar",
     design="7/C15")
 
+CHECKS["C17"] = dict(
+    text="Machine-checked proof (Coq): for every flat table and every chain (any length, order, repetition) of filters, column "
+         "selections, child selections, record indices and slices on a lazy row stream, iteration yields the constraint normal "
+         "form BY COLUMN NAME - all filters on the source rows, the finally selected columns in request order, then the slices in "
+         "order - and a step leaves its source untouched. The model is compared with IterData on all chains up to a length over a "
+         "9-operation alphabet plus seeded longer chains; every intermediate stream is iterated before/after later steps and twice; "
+         "one nested-sequence level is checked against a by-name reference.",
+    note=TB + "Cells are integers in the Gallina model; nested sequences are decided by the harness reference only.",
+    technique="Coq proof (invariant over operation lists: row layout = visible column names) + vm_compute correspondence, exhaustive over short chains",
+    design="7/C17")
+CHECKS["C04"] = dict(
+    text="Machine-checked proof (Coq): the server's constraint pipeline (selection clauses, column projection, record range) on the "
+         "lazy-stream model equals the reference filter (source order, request order), and the order in which a client stacks the "
+         "lazy operators is irrelevant (corollaries of the C17 normal form). Generated tables (Int32/Float64/String) x constraints x "
+         "backends {numpy structured array, IterData, CSV file} x entries {raw URL, open_url(url?ce), client operators in shuffled "
+         "order} are run on the real code against an independent reference filter; integer cases also against the Gallina pipeline.",
+    note=TB + "One known finding (lazy backend whose constraint selects no record raises: no declared column types).",
+    technique="Coq corollaries of the C17 theorem + differential runs over 3 backends x 3 entries against a reference filter",
+    design="7/C04")
+
 NOT_YET = {
 }
 
